@@ -22,7 +22,7 @@ Drift(t, what) == PrintT(<<"DRIFT", l, t, what>>)
 
 AsPair(w) == <<w.size, w.next>>
 EvLoc(e) == IF e.loc = "cursor" THEN CUR ELSE IF e.loc = "disc" THEN DISC ELSE IF e.loc = "minseg" THEN MSEG
-            ELSE IF e.loc = "sent" THEN SENT ELSE IF e.loc = "node" THEN e.off ELSE -99
+            ELSE IF e.loc = "sent" THEN SENT ELSE IF e.loc = "refs" THEN REFS ELSE IF e.loc = "node" THEN e.off ELSE -99
 IsWordLoc(at) == at = SENT \/ at >= 0
 
 \* does the logged access e equal the model access a (with model old value `old` and outcome `ok`)?
@@ -35,13 +35,14 @@ Matches(e, a, old, ok) ==
              /\ (a.kind = "store") => e.a0 = AsPair(a.exp)
         ELSE /\ e.old = old
              /\ (a.kind \in {"cas", "casw"}) => (e.a0 = a.exp /\ e.a1 = a.new)
-             /\ (a.kind \in {"store", "fadd"}) => e.a0 = a.exp
+             /\ (a.kind \in {"store", "fadd", "fsub"}) => e.a0 = a.exp
      /\ e.ok = ok
   ELSE IF e.ev = "zero" THEN a.kind = "zero" /\ a.exp = e.off /\ a.new = e.len
+  ELSE IF e.ev = "unmount" THEN a.kind = "unmount"
   ELSE \* user step logged at its return
      /\ a.kind = e.op.k /\ a.exp = e.op.h
 
-IsStepEvent(e) == e.ev \in {"acc", "zero"} \/ (e.ev = "ret" /\ e.op.k \in {"fill", "verify", "write"} /\ e.res.k = "ok")
+IsStepEvent(e) == e.ev \in {"acc", "zero", "unmount"} \/ (e.ev = "ret" /\ e.op.k \in {"fill", "verify", "write"} /\ e.res.k = "ok")
 
 Init0 == Init /\ l = 1 /\ on = FALSE
 
@@ -51,6 +52,7 @@ Reset ==
   /\ hs' = Setup.handles /\ live' = DOMAIN Setup.handles
   /\ pc' = [t \in Threads |-> "idle"] /\ loc' = [t \in Threads |-> L0]
   /\ ip' = [t \in Threads |-> SkipFrom(t, 1, DOMAIN Setup.handles)]
+  /\ refs' = Setup.refs /\ freed' = 0 /\ touchedAfterFree' = FALSE
   /\ on' = Rec[l].ok
   /\ (Rec[l].ok /\ ~(Rec[l].obs.alloc = Setup.cursor /\ Rec[l].obs.disc = Setup.disc)) => Drift(-1, "setup-state")
   /\ l' = l + 1
